@@ -492,12 +492,16 @@ class World:
         return (self.caught_up_event.is_set() and not self.loop.has_ready()
                 and not self.loop.pending_jobs() and not self.daemon.pending)
 
-    def run_until_caught_up(self, max_steps=400000):
-        '''Default schedule until the block processor has caught up with the daemon and is
-        parked in its polling sleep; raises if the processing task dies.'''
+    def run_until_caught_up(self, max_steps=400000, step_hook=None):
+        """Default schedule until the block processor is parked in its polling sleep after an
+        on_caught_up (caught_up_event set, nothing runnable but timers).  Raises SyncFailed if
+        the processing task ends, Stalled if nothing is enabled before that.  step_hook(k) is
+        called before scheduler step k (environment events placed at a step)."""
         loop = self.loop
         n = 0
         while True:
+            if step_hook:
+                step_hook(n)
             n += 1
             if n > max_steps:
                 raise Broken('sync did not finish')
@@ -514,13 +518,16 @@ class World:
             if self.daemon.pending:
                 self.daemon.deliver(self.daemon.pending[0])
                 continue
-            if (self.caught_up_event.is_set()
-                    and self.bp.state.height == len(self.daemon.best) - 1
-                    and self.db.state.height == self.bp.state.height
-                    and self.bp.reorg_count is None):
+            if self.caught_up_event.is_set():
+                self.sync_steps = n
                 return
-            if not loop.fire_timer():
-                raise Broken('sync stalled with nothing enabled')
+            raise Stalled('nothing enabled and not caught up')
+
+    def at_daemon_tip(self):
+        return (self.bp.state.height == len(self.daemon.best) - 1
+                and self.db.state.height == self.bp.state.height
+                and bytes(self.db.state.tip) == self.daemon.best[-1].hash
+                and self.bp.reorg_count is None)
 
     def poll(self):
         '''Fire the block processor's polling timer and run to the next park.'''
@@ -576,6 +583,10 @@ class World:
         self.loop.close()
         if destroy:
             self.machine.destroy()
+
+
+class Stalled(Exception):
+    '''Nothing is enabled but the block processor has not parked (deadlock).'''
 
 
 class SyncFailed(Exception):
